@@ -499,6 +499,7 @@ def carg(a):
     if k == 'sb': return f'(ABool {cbool(a[1])})'
     if k in ('l', 'n'): return f'(AArr {qlist(a[1])})'
     if k in ('bl', 'bn'): return f'(ABArr {cbits(a[1])})'
+    if k in ('l2', 'n2') and not a[1]: return '(AArr [])'      # np.array([]) / [] : a value with no rows IS the empty 1-d value
     if k in ('l2', 'n2'): return f'(AArr2 {clist(a[1], qlist)})'
     if k == 'bn2': return f'(ABArr2 {clist(a[1], cbits)})'
     raise ValueError(k)
@@ -1655,6 +1656,9 @@ WITNESSES += [
 # witnesses of behaviour found in round 3 on the unchanged tree; each becomes active (is replayed on every run) as soon as its
 # finding line is listed in known_findings.txt, so that the check passes before and re-establishes the finding after
 PROPOSED_WITNESSES = [
+    {'key': 'C09:broadcast-not-supported:aset',
+     'case': {'objs': [['a', [[1.0, 2.0], [0.0, 3.0], [4.0, 0.0]]]],
+              'ops': [['aset', 0, ['pair', ['sl', None, 2, None], ['o']], ['n2', [[5.0, 6.0], [7.0, 8.0]]], {'raw': True}]]}},
     {'key': 'C09:open-row-slice-with-ndarray-columns',
      'case': {'z': True, 'objs': [['a', [[1.0, 2.0]]]], 'ops': [['agetnd', 0, ['ni', [0, 1]]]]}},
     {'key': 'C09:negative-index',
